@@ -3,6 +3,7 @@ import Tftp.Driver.Worker
 import Tftp.Driver.Server
 import Tftp.Driver.Config
 import Tftp.Driver.Net
+import Tftp.Driver.Client
 open Tftp Tftp.Driver
 
 def dispatch (line : String) : String :=
@@ -22,6 +23,7 @@ def dispatch (line : String) : String :=
     else if cmd = "multi" then multiLine toks
     else if cmd = "cfg" then cfgLine toks
     else if cmd = "loop" then loopLine toks
+    else if cmd = "cli" then cliLine toks
     else "bad-op"
 
 partial def loop (hin : IO.FS.Stream) (hout : IO.FS.Stream) : IO Unit := do
